@@ -17,7 +17,7 @@ SHARED = [
     # no `static` / `thread_local` state in the engine sources
     {"target": "Strengths.Props.CppStatics", "file": "Strengths/Props/CppStatics.lean", "groups": ["CppNumeric"],
      "props": ["C01", "C02", "C03", "C04", "C07", "C08", "C09", "C10", "C11", "C14", "C15", "C16"],
-     "trusted": "Props/CppStatics.lean: a regex inventory of the `static` / `thread_local` keywords of the engine sources"},
+     "trusted": "Props/CppStatics.lean: a regex inventory of the `static` / `thread_local` keywords, of the preprocessor lines and of floating-point-environment tokens (SSE control register, <cfenv>, inline assembly) of the engine sources"},
 ]
 
 
